@@ -29,19 +29,33 @@ type Relax struct {
 	ExprefAnywhere bool // expression =/ "&" expression
 }
 
-const maxTok = 40
+// sequences of up to maxTok tokens are decided in fixed storage (the exhaustive enumerations decide
+// millions of them); longer ones, up to MaxLongTok, on the heap (cubic time: a few hundred per run).
+const (
+	maxTok     = 40
+	MaxLongTok = 700
+)
+
+const (
+	mExpr = iota
+	mList
+	mArgs
+	mKV
+)
 
 type Recognizer struct {
 	toks  []gen.TokType
-	n     int
+	n, st int
 	relax Relax
-	// memo: 0 unknown, 1 yes, 2 no
-	mExpr, mList, mArgs, mKV [maxTok + 1][maxTok + 1]uint8
+	// memo: 0 unknown, 1 yes, 2 no; tab[k][i*st+j]
+	tab  [4][]uint8
+	heap [4][]uint8
+	fix  [4][(maxTok + 1) * (maxTok + 1)]uint8
 }
 
 // Accepts reports whether the token sequence is a sentence of the grammar.
 func Accepts(toks []gen.TokType, relax Relax) bool {
-	if len(toks) == 0 || len(toks) > maxTok {
+	if len(toks) == 0 || len(toks) > MaxLongTok {
 		return false
 	}
 	var r Recognizer
@@ -51,13 +65,23 @@ func Accepts(toks []gen.TokType, relax Relax) bool {
 // Run resets the recogniser and decides toks.
 func (r *Recognizer) Run(toks []gen.TokType, relax Relax) bool {
 	n := len(toks)
-	if n == 0 || n > maxTok {
+	if n == 0 || n > MaxLongTok {
 		return false
 	}
-	r.toks, r.n, r.relax = toks, n, relax
-	for i := 0; i <= n; i++ {
-		for j := i; j <= n; j++ {
-			r.mExpr[i][j], r.mList[i][j], r.mArgs[i][j], r.mKV[i][j] = 0, 0, 0, 0
+	r.toks, r.n, r.st, r.relax = toks, n, n+1, relax
+	sz := (n + 1) * (n + 1)
+	for k := range r.tab {
+		if n <= maxTok {
+			r.tab[k] = r.fix[k][:sz]
+		} else if cap(r.heap[k]) >= sz {
+			r.tab[k] = r.heap[k][:sz]
+		} else {
+			r.heap[k] = make([]uint8, sz)
+			r.tab[k] = r.heap[k]
+			continue
+		}
+		for q := range r.tab[k] {
+			r.tab[k][q] = 0
 		}
 	}
 	return r.expr(0, n)
@@ -71,13 +95,13 @@ func (r *Recognizer) expr(i, j int) bool {
 	if j <= i {
 		return false
 	}
-	if m := r.mExpr[i][j]; m != 0 {
+	if m := r.tab[mExpr][i*r.st+j]; m != 0 {
 		return m == 1
 	}
-	r.mExpr[i][j] = 2 // cycle guard (left recursion goes through strictly shorter spans anyway)
+	r.tab[mExpr][i*r.st+j] = 2 // cycle guard (left recursion goes through strictly shorter spans anyway)
 	ok := r.expr0(i, j)
 	if ok {
-		r.mExpr[i][j] = 1
+		r.tab[mExpr][i*r.st+j] = 1
 	}
 	return ok
 }
@@ -147,7 +171,7 @@ func (r *Recognizer) list(i, j int) bool {
 	if j <= i {
 		return false
 	}
-	if m := r.mList[i][j]; m != 0 {
+	if m := r.tab[mList][i*r.st+j]; m != 0 {
 		return m == 1
 	}
 	ok := r.expr(i, j)
@@ -156,9 +180,9 @@ func (r *Recognizer) list(i, j int) bool {
 			ok = true
 		}
 	}
-	r.mList[i][j] = 2
+	r.tab[mList][i*r.st+j] = 2
 	if ok {
-		r.mList[i][j] = 1
+		r.tab[mList][i*r.st+j] = 1
 	}
 	return ok
 }
@@ -174,7 +198,7 @@ func (r *Recognizer) args(i, j int) bool {
 	if j <= i {
 		return false
 	}
-	if m := r.mArgs[i][j]; m != 0 {
+	if m := r.tab[mArgs][i*r.st+j]; m != 0 {
 		return m == 1
 	}
 	ok := r.arg(i, j)
@@ -183,9 +207,9 @@ func (r *Recognizer) args(i, j int) bool {
 			ok = true
 		}
 	}
-	r.mArgs[i][j] = 2
+	r.tab[mArgs][i*r.st+j] = 2
 	if ok {
-		r.mArgs[i][j] = 1
+		r.tab[mArgs][i*r.st+j] = 1
 	}
 	return ok
 }
@@ -212,7 +236,7 @@ func (r *Recognizer) kvs(i, j int) bool {
 	if j <= i {
 		return false
 	}
-	if m := r.mKV[i][j]; m != 0 {
+	if m := r.tab[mKV][i*r.st+j]; m != 0 {
 		return m == 1
 	}
 	ok := r.kv(i, j)
@@ -221,9 +245,9 @@ func (r *Recognizer) kvs(i, j int) bool {
 			ok = true
 		}
 	}
-	r.mKV[i][j] = 2
+	r.tab[mKV][i*r.st+j] = 2
 	if ok {
-		r.mKV[i][j] = 1
+		r.tab[mKV][i*r.st+j] = 1
 	}
 	return ok
 }
